@@ -256,6 +256,9 @@ class SecureSession(TCPTransport, _IPSecureTransportLayer):
 
     async def connect(self) -> None:
         """Connect transport."""
+        # a session left over from a connect() abandoned after its handshake must
+        # not wrap the new SessionRequest (old key, sequence numbers starting again)
+        self.initialized = False
         await super().connect()
         self._private_key, self.public_key = generate_ecdh_key_pair()
         self._sequence_number = 0
